@@ -12,3 +12,5 @@ def run(ctx):
     ops_dtype.run_all(ctx)
     for i in range(ctx.budget(120, 1500)):
         ops_dtype.case_declared_dtype(ctx, Subject(ctx, allow_hidden=False))
+        if i % 3 == 0:
+            ops_dtype.case_declared_dtype_null_field(ctx)
